@@ -1511,11 +1511,11 @@ def gen_sim(seed, index):
             if npk is None:
                 lpk = rng.choice(["lingreedy", "linucb", "lints"])
             if lpk == "thompson" and not binary:
-                lpk = "greedy"
+                lpk = "greedy" if rng.random() < 0.5 else "thompson"
         else:
             npk = None
             lpk = rng.choice(["greedy", "ucb", "softmax", "thompson", "popularity", "random"])
-            if lpk == "thompson" and not binary:
+            if lpk == "thompson" and not binary and rng.random() < 0.5:
                 lpk = "ucb"
             if lpk == "popularity" and not binary:
                 lpk = "greedy"
@@ -1528,7 +1528,10 @@ def gen_sim(seed, index):
         if npc and npc["k"] == "radius":
             npc["probs"] = None
         data_metric(rng, npc, 0.45)
-        bandits.append({"lp": lp, "np": npc, "arms": list(arms), "seed": rng.randint(0, 10 ** 6), "binz": None,
+        # non-binary rewards with Thompson Sampling: a binarizer (the simulator hands its own arrays to the bandits,
+        # which must not be written to)
+        bz = rng.choice([1, 2, 3, 4]) if (lpk == "thompson" and not binary) else None
+        bandits.append({"lp": lp, "np": npc, "arms": list(arms), "seed": rng.randint(0, 10 ** 6), "binz": bz,
                         "n_jobs": rng.choice([1, 1, 2]), "backend": None})
     test_size = rng.choice([0.2, 0.3, 0.4, 0.5])
     boundary = rng.random() < 0.08
@@ -1904,9 +1907,22 @@ def containers_and_caller_objects(scn):
             return "step %d (%s): lists give %r, %s containers give %r" % (i, k, ra, variant, rb)
         if arms_a != list(cfg["arms"]) or arms_b != list(cfg["arms"]):
             return "step %d (%s): the caller's arms list was modified: %r" % (i, k, arms_a)
+    # arm changes at the end (scenarios with a configured empty-neighbourhood distribution contain none: known
+    # finding K4 concerns what predict does afterwards, not the caller's objects)
+    for extra in ("zz_added_1", "zz_added_2"):
+        try:
+            a.add_arm(extra if isinstance(cfg["arms"][0], str) else 9000 + len(extra) + len(a.arms))
+        except Exception:  # noqa: BLE001
+            pass
+    try:
+        a.remove_arm(a.arms[0])
+    except Exception:  # noqa: BLE001
+        pass
     if _snap((npo.tree_parameters if hasattr(npo, "tree_parameters") else None,
               getattr(npo, "no_nhood_prob_of_arm", None))) != policy_snap:
         return "a policy parameter object owned by the caller was modified"
+    if arms_a != list(cfg["arms"]):
+        return "the caller's arms list was modified by an arm change: %r" % (arms_a,)
     # the bandit's arm list is independent of the list it was constructed from
     arms_a.append("zz_caller_side")
     if "zz_caller_side" in a.arms:
